@@ -1,15 +1,42 @@
 /-
 C33 — Assembler and disassembler round-trip.
 
-Model: `Model.AsmFormat` (binary instruction format, label resolution with varint-branch relaxation, token-level print/parse,
-static check) over the tables regenerated from the tree (`Gen.OpTable`, `Gen.AsmTable`).
+Model: `Model.AsmFormat` — the binary instruction format (immediates typed by the opcode table: byte, int8, 2-byte label,
+varuint, bytes, int / byte constant blocks, label lists, varint label), label resolution with the varint-branch relaxation
+of findBranchSizes, the token-level disassembler (`printProg`, label naming as Disassemble) and assembler front end
+(`parseProg`: statements, labels, getSpec with pseudo-op dispatch, the asm functions), and the static check — all over the
+tables regenerated from the tree (`Gen.OpTable`, `Gen.AsmTable`).
 
-Part A (binary format, every environment):
-  decode_encode            FULL   decode (encode is) = is for well-formed instructions
-  ...
+Part A  binary format, EVERY environment (table, constants):
+  decode_encode               FULL     decode (encode is) = (v, is) for well-formed programs (`WFprog`)
+  decodeBody_encodeBody       FULL     the same without the version header
+  relax_terminates            FULL     the shrinking loop reaches its fixpoint within the model's fuel
+  relax_terminates_and_fits   FULL     … and at the fixpoint no varint offset is narrower than its placeholder
+  encode_errors               FULL     `encode` never fails with `fuel` / `placeholder`
+  encode_canon                FULL     the assembler's output is canonical (`Canon`: minimal header, minimal varuints and
+                                       varints, the layout the relaxation chooses)
+  canon_unique                FULL     two canonical encodings of one program are equal
+  canonical_canon             FULL     `Canonical bs` (read off the decoder's walk) + decode bs = (v, is) ⇒ Canon bs v is
+  encode_decode_canonical     PARTIAL  decode bs = (v, is), canonical bs, encode is = ok bs' ⇒ bs' = bs. Missing for the full
+                                       statement (`EncodeTotalOnCheckedStatement`): that `encode` SUCCEEDS on what a program
+                                       passing the static check decodes to (the version rules of resolveLabels).
+  branch_targets_resolve      FULL     assembled offsets fit their encodings and land on instruction starts / the end
+Part B  token level, every environment satisfying the finite table facts `TokFacts`:
+  parsed_wf                   FULL     what the front end accepts is well formed (Part A applies)
+  asm_dis_asm, asm_dis_asm_src   FULL     asm (dis (asm src)) = asm src on tokens, incl. that the disassembly exists
+  dis_asm_dis                 FULL     the printed statements are a fixpoint of dis ∘ asm
+Part C  today's tables (finite checks by kernel evaluation over Gen.OpTable / Gen.AsmTable):
+  genFacts                    FULL     `TokFacts genEnv v` for every version v ≤ LogicVersion
+  gen_asm_dis_asm             FULL     asm ∘ dis ∘ asm = asm for today's assembler tables
+  gen_encode_decode_canonical PARTIAL  as encode_decode_canonical, table hypotheses discharged
+Not proved (statements kept below): `AssembledChecksStatement` (assembled programs pass the static check — checked on the
+real code and against `staticCheck` on every run), `EncodeTotalOnCheckedStatement`.
+Scope of Part B: sources at TOKEN level without the pseudo-ops int / byte / addr / method (the model answers `unmodelled`
+for them, so `asm … = ok` excludes them; in particular no mixing of pseudo-op constants with an explicit intc / bytec N ≥ 4,
+the recorded known finding), under the constant-definedness rule "any block seen" (`TokFacts.rule`).
 -/
 import AlgoVerif.Model.AsmFormat
-import AlgoVerif.Lemmas.AsmFormatCanon
+import AlgoVerif.Lemmas.AsmFormatTable
 namespace Props.C33
 open Model.OpTables Model.AsmFormat Lemmas.AsmFormat
 
@@ -213,5 +240,177 @@ theorem encode_decode_canonical (env : Env) (bs bs' : Bytes) (v : Nat) (is : Lis
       unfold unresolve at h3
       exact decoded_instrsOK (fun r hr => ⟨(oks r hr).2.elim (fun next hn => hreg _ next _ hn), (oks r hr).1⟩) h4 h3
   exact canon_unique env bs' bs v is (encode_canon env v is bs' hW hwf he) hcan
+
+/-- NOT PROVED (full statement of the second half of `encode_decode_canonical`): a canonical program that passes the static
+    check in some run mode is accepted by the assembler's back end. -/
+def EncodeTotalOnCheckedStatement (env : Env) : Prop :=
+  ∀ bs v is mode minv, IsBytes bs → Canonical env bs → decode env bs = .ok (v, is) →
+    staticCheck env mode minv bs = .ok → encode env v is = .ok bs
+
+/-- NOT PROVED (second sentence of the property): programs the assembler accepts pass the static check of their version in
+    a run mode that allows all their opcodes, when no field-cost immediate is a field without a cost. The harness checks it
+    on the real code for every assembled program, and `staticCheck` against the real check on every line. -/
+def AssembledChecksStatement (env : Env) : Prop :=
+  ∀ v src is bs mode, v ≤ env.protoVersion → parseProg env v src = .ok is → encode env v is = .ok bs →
+    (∀ i ∈ is, allows i.spec.modes mode = true) → (∀ i ∈ is, ∀ b, i.imms = [.byte b] → costOkFor env i.spec [b] = true) →
+    staticCheck env mode 0 bs = .ok
+
+/-! ## Part B — the token level: asm ∘ dis ∘ asm = asm -/
+
+/-- the table facts the token-level theorems use; all are finite checks, proved for today's tables in `genFacts` -/
+structure TokFacts (env : Env) (v : Nat) : Prop where
+  width : env.initWidth ≤ 9
+  lv64 : env.logicVersion < two64
+  maxStr : env.maxStringSize < two64
+  pseudo : PseudoOK env
+  groups : GroupIdx env
+  rule : env.constRule = 2
+  names : ∀ name s, byName env v name = some s → Reg (env.look v) s
+
+/-- programs the front end produces are well formed in the sense of Part A -/
+theorem parsed_wf (env : Env) (v : Nat) (src : List Stmt) (is : List Instr) (f : TokFacts env v)
+    (hp : parseProg env v src = .ok is) (hs : SmallProg is) : WFprog env v is := by
+  obtain ⟨⟨hi, _, _⟩, _⟩ := parseProg_inv f.groups f.rule hp
+  intro i hmem
+  obtain ⟨hb, _, him, _, _⟩ := hi i hmem
+  exact ⟨f.names _ _ hb, immsOK_of_inv f.maxStr _ _ him (hs i hmem)⟩
+
+/-- FULL (token level, `asm_dis_asm`). A token-level source the assembler accepts assembles to bytes whose disassembly
+    exists and re-assembles to exactly the same bytes:  asm (dis (asm src)) = asm src.
+    (`parseProg` then `encode` is `asm`; the two steps are named so that `SmallProg` — every list immediate has fewer than
+    2^64 items — can be stated about the parsed program.) -/
+theorem asm_dis_asm (env : Env) (v : Nat) (src : List Stmt) (is : List Instr) (bs : Bytes) (f : TokFacts env v)
+    (hp : parseProg env v src = .ok is) (hs : SmallProg is) (he : encode env v is = .ok bs) :
+    ∃ stmts, dis env bs = .ok (v, stmts) ∧ asm env v stmts = .ok bs := by
+  obtain ⟨hinv, hv⟩ := parseProg_inv f.groups f.rule hp
+  have hwf := parsed_wf env v src is f hp hs
+  have hdec := decode_encode env v is bs f.width hv (by have := f.lv64; omega) hwf he
+  obtain ⟨stmts, hpr⟩ := printProg_total hinv
+  refine ⟨stmts, ?_, ?_⟩
+  · unfold dis; rw [hdec]; simp only [hpr]
+  · unfold asm
+    rw [parseProg_print f.pseudo f.rule hv hinv hpr]
+    exact he
+
+/-- the same with `asm` on both sides -/
+theorem asm_dis_asm_src (env : Env) (v : Nat) (src : List Stmt) (bs : Bytes) (f : TokFacts env v)
+    (hs : ∀ is, parseProg env v src = .ok is → SmallProg is) (h : asm env v src = .ok bs) :
+    ∃ stmts, dis env bs = .ok (v, stmts) ∧ asm env v stmts = .ok bs := by
+  unfold asm at h
+  cases hp : parseProg env v src with
+  | error x => simp [hp] at h
+  | ok is =>
+    simp only [hp] at h
+    exact asm_dis_asm env v src is bs f hp (hs is hp) h
+
+/-- FULL. The text round trip is a fixpoint after one step: disassembling the re-assembled bytes prints the same statements. -/
+theorem dis_asm_dis (env : Env) (v : Nat) (src : List Stmt) (is : List Instr) (bs : Bytes) (f : TokFacts env v)
+    (hp : parseProg env v src = .ok is) (hs : SmallProg is) (he : encode env v is = .ok bs) :
+    ∃ stmts bs', dis env bs = .ok (v, stmts) ∧ asm env v stmts = .ok bs' ∧ dis env bs' = .ok (v, stmts) := by
+  obtain ⟨stmts, h1, h2⟩ := asm_dis_asm env v src is bs f hp hs he
+  exact ⟨stmts, bs, h1, h2, h1⟩
+
+/-! ### label / branch lemmas -/
+
+/-- FULL. In an assembled program every branch offset fits its encoding (2-byte offsets are int16, varint offsets fill their
+    placeholder) and every branch target is the start of an instruction or the end of the program: the raw instructions
+    decode, are well formed for their kinds, and un-resolve to the label indices they were assembled from. -/
+theorem branch_targets_resolve (env : Env) (v : Nat) (is : List Instr) (bs : Bytes) (hW : env.initWidth ≤ 9)
+    (hwf : WFprog env v is) (h : encodeBody env v is = .ok bs) :
+    ∃ rs, bs = encRaw rs ∧ (∀ r ∈ rs, RInstrOK (env.look v) r) ∧ unresolve rs = some is := by
+  unfold encodeBody at h
+  cases h1 : relax (env.initWidth * is.length + 1) (is.map (fun i => (i, env.initWidth))) with
+  | error x => simp [h1] at h
+  | ok xs =>
+    simp only [h1] at h
+    cases h2 : resolve v env.backBranchVersion xs with
+    | error x => simp [h2] at h
+    | ok rs =>
+      simp only [h2, Except.ok.injEq] at h; subst h
+      obtain ⟨hfst, hle⟩ := relax_ok _ _ _ h1
+      rw [map_fst_pair] at hfst
+      have hx : ∀ x ∈ xs, InstrOK (env.look v) x.1 ∧ x.2 ≤ 9 := by
+        intro x hx
+        refine ⟨hwf x.1 (by rw [← hfst]; exact List.mem_map_of_mem hx), ?_⟩
+        have := hle env.initWidth (by intro y hy; obtain ⟨i, _, rfl⟩ := List.mem_map.mp hy; exact Nat.le_refl _) x hx
+        omega
+      obtain ⟨a, _, d, _⟩ := resolve_ok (look := env.look v) hx h2
+      exact ⟨rs, rfl, a, by rw [d, hfst]⟩
+
+/-! ## Part C — today's tables -/
+
+section Gen
+open Gen.OpTable
+
+/-- FULL (finite checks over the regenerated tables). Every table fact holds for every version of today's tree. The last
+    one fails — and with it this theorem — if the assembler's constant-definedness rule is not "any block seen"
+    (fix d0bedba4d8): with the older rules `asm_dis_asm` is false (a smaller block revived by the label the disassembler
+    puts on `proto` makes the re-assembly fail). -/
+theorem genFacts (v : Nat) (hv : v ≤ logicVersion) : TokFacts genEnv v where
+  width := by decide
+  lv64 := by decide
+  maxStr := by decide
+  pseudo := gen_pseudoOK
+  groups := gen_groupIdx
+  rule := by decide
+  names := gen_namesReg v hv
+
+/-- FULL for today's tables: asm ∘ dis ∘ asm = asm for every version. -/
+theorem gen_asm_dis_asm (v : Nat) (src : List Stmt) (is : List Instr) (bs : Bytes)
+    (hp : parseProg genEnv v src = .ok is) (hs : SmallProg is) (he : encode genEnv v is = .ok bs) :
+    ∃ stmts, dis genEnv bs = .ok (v, stmts) ∧ asm genEnv v stmts = .ok bs :=
+  asm_dis_asm genEnv v src is bs (genFacts v (parseProg_inv gen_groupIdx (by decide) hp).2) hp hs he
+
+/-- FULL for today's tables: canonical bytes that decode re-encode to themselves whenever the back end accepts them. -/
+theorem gen_encode_decode_canonical (bs bs' : Bytes) (v : Nat) (is : List Instr) (hb : IsBytes bs)
+    (hc : Canonical genEnv bs) (hd : decode genEnv bs = .ok (v, is)) (he : encode genEnv v is = .ok bs') : bs' = bs := by
+  have hv : v ≤ logicVersion := by
+    unfold decode at hd
+    cases hr : readU bs 10 with
+    | none => simp [hr] at hd
+    | some p =>
+      obtain ⟨v', k⟩ := p
+      simp only [hr] at hd
+      split at hd
+      · cases hd
+      · rename_i hlt
+        cases hdb : decodeBody genEnv v' bs.length (bs.drop k) with
+        | error x => simp [hdb] at hd
+        | ok is' =>
+          simp only [hdb, Except.ok.injEq, Prod.mk.injEq] at hd
+          obtain ⟨rfl, _⟩ := hd
+          show v' ≤ genEnv.logicVersion
+          omega
+  exact encode_decode_canonical genEnv bs bs' v is (by decide) hb (gen_lookSound v) (gen_lookReg v hv) hc hd he
+
+end Gen
+
+/-! ## examples: the hypotheses are met by concrete programs of today's tables -/
+
+section Examples
+open Gen.OpTable
+set_option maxRecDepth 100000
+
+/-- `label1: ; pushint 300 ; bnz label1 ; b label2 ; label2:` at version 13 (varint branches, one back, one to the end) -/
+def demoSrc : List Stmt :=
+  [[.ldef 1], [.name "pushint", .num 300], [.name "bnz", .lref 1], [.name "b", .lref 2], [.ldef 2]]
+
+example : (asm genEnv 13 demoSrc).toOption = some [13, 129, 172, 2, 64, 5, 66, 0] := by decide +kernel
+example : (dis genEnv [13, 129, 172, 2, 64, 5, 66, 0]).toOption = some (13, demoSrc) := by decide +kernel
+/-- the same source at version 12: two-byte offsets -/
+example : (asm genEnv 12 demoSrc).toOption = some [12, 129, 172, 2, 64, 255, 250, 66, 0, 0] := by decide +kernel
+/-- a non-canonical varuint (300 in three bytes) decodes, and re-assembles to the canonical form -/
+example : (dis genEnv [13, 129, 172, 130, 0]).toOption = some (13, [[.name "pushint", .num 300]]) := by decide +kernel
+example : (asm genEnv 13 [[.name "pushint", .num 300]]).toOption = some [13, 129, 172, 2] := by decide +kernel
+example : staticCheck genEnv modeSig 0 [13, 129, 172, 2, 64, 5, 66, 0] = .ok := by decide +kernel
+/-- the hypotheses of `asm_dis_asm` are met by the demo source -/
+example : ∃ is, parseProg genEnv 13 demoSrc = .ok is := by
+  cases h : parseProg genEnv 13 demoSrc with
+  | ok is => exact ⟨is, rfl⟩
+  | error e =>
+    have : (parseProg genEnv 13 demoSrc).toOption.isSome = true := by decide +kernel
+    rw [h] at this; cases this
+
+end Examples
 
 end Props.C33
